@@ -188,6 +188,41 @@ Fixpoint runner (fuel : nat) (starta enda startb endb : Z) (f0 b0 : cell A) : op
       else Some []          (* transition -1: nothing is written, no recursion *)
   end.
 
+(* the same recursion, also recording every meetup (max, transition, meet) in the order they are made *)
+Fixpoint runner2 (fuel : nat) (starta enda startb endb : Z) (f0 b0 : cell A) : option (list (Z * Z) * list (T * Z * Z)) :=
+  match fuel with
+  | O => None
+  | S fu =>
+    if (enda <=? starta) || (endb <=? startb) then Some ([], [])
+    else
+      let mid := (enda - starta) / 2 + starta in
+      let fs := k_forward Kn starta mid startb endb f0 in
+      let bs := k_backward Kn mid enda startb endb b0 in
+      let mt := k_meetup Kn mid startb endb fs bs in
+      let '(_, tr, meet) := mt in
+      let sub2 (w1 : list (Z * Z)) (a1 e1 s1 n1 : Z) (bb : cell A) (a2 e2 s2 n2 : Z) (ff : cell A) :=
+        match runner2 fu a1 e1 s1 n1 f0 bb with
+        | None => None
+        | Some (p1, m1) => match runner2 fu a2 e2 s2 n2 ff b0 with
+                           | None => None
+                           | Some (p2, m2) => Some (w1 ++ p1 ++ p2, mt :: m1 ++ m2)
+                           end
+        end in
+      if tr =? 1 then sub2 [(mid, meet); (mid + 1, meet + 1)] starta (mid - 1) startb (meet - 1) live0 (mid + 1) enda (meet + 1) endb live0
+      else if tr =? 2 then sub2 [(mid, meet)] starta (mid - 1) startb (meet - 1) live0 mid enda (meet + 1) endb ga0
+      else if tr =? 3 then sub2 [(mid, meet)] starta (mid - 1) startb (meet - 1) live0 (mid + 1) enda meet endb gb0
+      else if tr =? 5 then sub2 [(mid + 1, meet + 1)] starta mid startb (meet - 1) ga0 (mid + 1) enda (meet + 1) endb live0
+      else if tr =? 6 then sub2 [] starta (mid - 1) startb meet gb0 (mid + 1) enda meet endb gb0
+      else if tr =? 7 then sub2 [(mid + 1, meet + 1)] starta (mid - 1) startb meet gb0 (mid + 1) enda (meet + 1) endb live0
+      else Some ([], [mt])
+  end.
+
+Definition meet_trace (len_a len_b : Z) : list (T * Z * Z) :=
+  match runner2 (Z.to_nat (len_a + len_b + 2)) 0 len_a 0 len_b live0 live0 with
+  | None => []
+  | Some (_, ms) => ms
+  end.
+
 Fixpoint set_nthZ (l : list Z) (i : nat) (v : Z) : list Z :=
   match l, i with
   | _ :: t, O => v :: t
